@@ -7,12 +7,16 @@ from vlib.coqfmt import cZ, cnat, cbool, clist
 ENV_BY_TIER = {"quick": {"NUMBA_DISABLE_JIT": "1"}, "thorough": {}}
 
 RULE = ("msprime tree sequences with ploidy=2 contemporary individuals (2-4 individuals, 1-130 trees, Kingman and "
-        "multiple-merger, integer coordinates), extra singletons added on the individuals' nodes, every mutation "
+        "multiple-merger, integer coordinates), extra singletons added on the individuals' nodes (40% of them exactly on "
+        "tree breakpoints), ~40% of the inputs decorated by gen.exotic (extra node flag bits, ALL nodes renumbered, "
+        "mutations above roots, mutation-free sites incl. num_sites == num_mutations, arbitrary ancestral states, "
+        "populations), every mutation "
         "given a unique derived state so that output rows are matched by (site, derived_state) (tskit's sort may "
         "permute rows inside a site, DESIGN.md section 9 K9); x random re-phasings (each singleton moved to the "
         "individual's other node with probability 1/2); x singletons_phased in {True, False}; x one random option "
         "set per re-phasing pair (match_segregating_sites, rescaling_intervals in {0, 2, 5, 20, default}, "
-        "rescaling_iterations, max_iterations, max_shape, regularise_roots). "
+        "rescaling_iterations incl. 0, max_iterations, max_shape, regularise_roots; 30% of the sets passed as numpy "
+        "scalars); the unphased run is repeated on the same object and must be bit-identical. "
         "A case is non-trivial when at least one singleton exists on an unphased individual")
 ASSUME = ["tskit's tables satisfy valid_tablesb (checked inside Coq on every input)",
           "the values of mutation_phase < 0.5 are taken from the run (the EP numerics are not part of this model)",
@@ -48,6 +52,14 @@ def make_ts(rng):
         nodes = [int(u) for ind in ts.individuals() for u in ind.nodes]
         if rng.random() < 0.7:
             ts = S.add_mutations(rng, ts, k=rng.randint(1, 6), nodes=nodes)
+        # ~40%: valid-but-unusual decorations (extra flag bits, all nodes renumbered -- an individual's two
+        # nodes are then not adjacent ids --, mutations above roots, mutation-free sites incl. the
+        # num_sites == num_mutations coincidence, arbitrary states, populations)
+        ts, _tag = S.exotic_variant(rng, ts)
+        if rng.random() < 0.3:
+            ts = S.site_mutation_coincidence(rng, ts, nodes=nodes if "permute_nodes" not in _tag else None)
+        if ts.num_mutations > 160:
+            continue
         return unique_states(ts)
 
 
@@ -122,10 +134,11 @@ def make_opts(rng):
     """one random option set; every run of a re-phasing pair uses the same one"""
     return {"match_segregating_sites": rng.random() < 0.5,
             "rescaling_intervals": rng.choice([0, 2, 5, 20, None, None]),
-            "rescaling_iterations": rng.choice([None, 1, 3]),
+            "rescaling_iterations": rng.choice([None, 0, 1, 3]),
             "max_iterations": rng.choice([1, 3, 5]),
             "max_shape": rng.choice([None, 20.0, 1000.0]),
-            "regularise_roots": rng.choice([True, False])}
+            "regularise_roots": rng.choice([True, False]),
+            "numpy_typed": rng.random() < 0.3}        # options passed as numpy scalars (np.bool_, np.int64, ...)
 
 
 def norm_opts(o):
@@ -133,13 +146,18 @@ def norm_opts(o):
     if isinstance(o, dict):
         return o
     return {"match_segregating_sites": False, "rescaling_intervals": 5 if o else 0, "rescaling_iterations": 2,
-            "max_iterations": 3, "max_shape": None, "regularise_roots": True}
+            "max_iterations": 3, "max_shape": None, "regularise_roots": True, "numpy_typed": False}
 
 
 def date(ts, mu, phased, rescale):
     import tsdate
     with S.time_limit(300):
-        kw = {k: v for k, v in norm_opts(rescale).items() if v is not None}
+        o = norm_opts(rescale)
+        kw = {k: v for k, v in o.items() if v is not None and k != "numpy_typed"}
+        if o.get("numpy_typed"):
+            conv = {bool: np.bool_, int: np.int64, float: np.float64}
+            kw = {k: conv[type(v)](v) for k, v in kw.items()}
+            mu, phased = np.float64(mu), np.bool_(phased)
         return tsdate.date(ts, method="variational_gamma", mutation_rate=mu, singletons_phased=phased,
                            progress=False, **kw)
 
@@ -184,6 +202,19 @@ def md_close(a, b):
     return a == b
 
 
+def exact_same(d1, d2):
+    """bit-identical mutation outputs (NaN-safe)"""
+    if d1.keys() != d2.keys():
+        return False
+    for k, v in d1.items():
+        w = d2[k]
+        if v[0] != w[0] or v[1] != w[1] or not (v[2] == w[2] or (v[2] != v[2] and w[2] != w[2])):
+            return False
+        if repr(v[3]) != repr(w[3]):
+            return False
+    return True
+
+
 def oracle(ctx, rng, ts, mu, rescale):
     """metamorphic checks on date(); returns number of singletons on unphased individuals"""
     partner = partner_map(ts)
@@ -216,6 +247,10 @@ def oracle(ctx, rng, ts, mu, rescale):
             ctx.oracle_fail("unphased:moved-to-non-partner",
                             "mutation %s moved from node %d to node %d (partner: %r)" % (key, v[1], a[1], partner.get(v[1])), rp)
             break
+    # the same input object dated again: bit-identical (no state leaking between calls)
+    again = date(ts, mu, False, rescale)
+    if not (np.array_equal(again.nodes_time, out_f.nodes_time) and exact_same(by_state(again), after_f)):
+        ctx.oracle_fail("unphased:second-call-differs", "dating the same tree sequence object twice gave different outputs", rp)
     if not np.array_equal(out_f.nodes_flags, ts.nodes_flags) or not np.array_equal(out_f.nodes_individual, ts.nodes_individual):
         ctx.oracle_fail("unphased:node-table", "node flags / individuals changed", rp)
     # the output does not depend on how the singletons were phased in the input
